@@ -62,9 +62,12 @@ def check(pid, src, tier="quick", seed="1"):
     return "MISSED(exit %d)" % r.returncode, r.stderr[-300:]
 
 
+RENAME = dict(kv.split(":") for kv in os.environ.get("SEED_RENAME", "").split(",") if kv)  # e.g. a:c,b:d for a second round
+
+
 def one(outdir, pid, x, do_suite=True):
     d = os.path.join(outdir, pid, x)
-    name = "%s-%s" % (pid, x)
+    name = "%s-%s" % (pid, RENAME.get(x, x))
     res = {"name": name, "property": pid}
     patch = os.path.join(d, "patch.diff")
     if not (os.path.exists(patch) and os.path.exists(os.path.join(d, "demo.py"))):
@@ -108,7 +111,7 @@ def one(outdir, pid, x, do_suite=True):
 
 def store(outdir, res):
     pid, x = res["name"].split("-")
-    src = os.path.join(outdir, pid, x)
+    src = os.path.join(outdir, pid, {v: k for k, v in RENAME.items()}.get(x, x))
     dst = os.path.join(HERE, "seeded", res["name"])
     os.makedirs(dst, exist_ok=True)
     with open(os.path.join(dst, "patch.diff"), "w") as f:
